@@ -25,11 +25,15 @@ import (
 	"github.com/dfklegend/cell2/baseapp/interfaces"
 	"github.com/dfklegend/cell2/baseapp/module"
 	nodeapp "github.com/dfklegend/cell2/node/app"
+	clustermodule "github.com/dfklegend/cell2/node/modules/cluster"
+	welcomemodule "github.com/dfklegend/cell2/node/modules/welcome"
 	nodeservice "github.com/dfklegend/cell2/node/service"
 	"github.com/dfklegend/cell2/utils/runservice"
 )
 
 type mod struct {
+	inner   interfaces.IAppModule // a real shipped module run in place of the script (its expected outcome is the script)
+	rs      *runservice.StandardRunService
 	id      int
 	c       *caseT
 	scripts [2]string                  // 0 = Start, 1 = Stop
@@ -68,7 +72,7 @@ func (noopCreator) Create(name string) {}
 // nodeCfg writes a minimal node configuration: one node, clustering and node control off.  `svc` is
 // the node's service list, one letter per service: P = the service has an entry under `services:`,
 // M = it is named by the node but missing from the services map (tolerated by StartServices: log and skip).
-func nodeCfg(svc, mode string) string {
+func nodeCfg(svc, mode, clus string) string {
 	if !nodeInit {
 		nodeInit = true
 		nodeservice.Factory.Register("c11svc", noopCreator{})
@@ -86,7 +90,7 @@ func nodeCfg(svc, mode string) string {
 		// the same for a node whose StartMode is empty or names a mode nobody registered (LaunchApp falls back)
 		baseapp.SetDefaultLaunchFunc(adder)
 	}
-	key := svc + "/" + mode
+	key := svc + "/" + mode + "/" + clus
 	if d, ok := nodeCfgDirs[key]; ok {
 		return d
 	}
@@ -109,8 +113,14 @@ func nodeCfg(svc, mode string) string {
 			entries = append(entries, "  "+name+":\n    Type: c11svc\n")
 		}
 	}
-	nodes := "---\nnodes:\n  n1:\n    StartMode: " + startMode + "\n    Address: 127.0.0.1:39511\n    Services: [" + strings.Join(names, ", ") + "]\nservices:\n" + strings.Join(entries, "")
-	cluster := "---\nEnable: false\nNodeCtrl: false\nName: c11verif\n"
+	addr, clusterCfg := "127.0.0.1:39511", "---\nEnable: false\nNodeCtrl: false\nName: c11verif\n"
+	if clus == "badaddr" {
+		// clustering on, and an own address without a port: the real ClusterModule's StartMember fails in
+		// Provider.init before any network traffic (no etcd needed)
+		addr, clusterCfg = "127.0.0.1", "---\nEnable: true\nNodeCtrl: false\nName: c11verif\nETCDServer: 127.0.0.1:1\n"
+	}
+	nodes := "---\nnodes:\n  n1:\n    StartMode: " + startMode + "\n    Address: " + addr + "\n    Services: [" + strings.Join(names, ", ") + "]\nservices:\n" + strings.Join(entries, "")
+	cluster := clusterCfg
 	os.WriteFile(filepath.Join(dir, "nodes.yaml"), []byte(nodes), 0o644)
 	os.WriteFile(filepath.Join(dir, "cluster.yaml"), []byte(cluster), 0o644)
 	nodeCfgDirs[key] = dir
@@ -157,11 +167,28 @@ func (c *caseT) addModule(sync bool) {
 	}
 }
 
-func (m *mod) Init(rs *runservice.StandardRunService) {}
+func (m *mod) Init(rs *runservice.StandardRunService) {
+	m.rs = rs
+	if m.inner != nil {
+		m.inner.Init(rs)
+	}
+}
 
 func (m *mod) run(ph int, next interfaces.FuncWithSucc) {
 	m.c.logf("%s%d", enterTok[ph], m.id)
 	m.next[ph] = next
+	if m.inner != nil {
+		report := func(succ bool) {
+			m.c.logf("%s%d%s", callTok[ph], m.id, tf(succ))
+			next(succ)
+		}
+		if ph == 0 {
+			m.inner.Start(report)
+		} else {
+			m.inner.Stop(report)
+		}
+		return
+	}
 	for _, ch := range m.scripts[ph] {
 		switch ch {
 		case 'T', 'F':
@@ -385,13 +412,31 @@ func exec(op string) string {
 		for i := 0; i < n; i++ {
 			c.mods = append(c.mods, &mod{id: i, c: c, scripts: [2]string{st[i], sp[i]}})
 		}
+		if v, ok := hx.KV(ws, "real"); ok { // real=<pos>:<module>: a real shipped module at that position
+			var pos int
+			var name string
+			if parts := strings.SplitN(v, ":", 2); len(parts) == 2 {
+				fmt.Sscanf(parts[0], "%d", &pos)
+				name = parts[1]
+			}
+			if pos < n {
+				switch name {
+				case "cluster":
+					c.mods[pos].inner = clustermodule.NewClusterModule()
+				case "welcome":
+					c.mods[pos].inner = welcomemodule.NewWelcomeModule()
+				}
+			}
+		}
 		cur = c
 		switch c.kind {
 		case 2: // the launch mode adds the modules inside StartNode
 			svc, _ := hx.KV(ws, "svc")
 			mode, _ := hx.KV(ws, "mode")
-			dir := nodeCfg(svc, mode)
+			clus, _ := hx.KV(ws, "cluster")
+			dir := nodeCfg(svc, mode, clus)
 			c.node = nodeapp.NewNode()
+			nodeapp.Node = c.node // the shipped modules find their node through this global
 			c.node.Prepare(dir)
 		case 1:
 			c.app = baseapp.NewApp()
@@ -430,6 +475,25 @@ func exec(op string) string {
 		}
 		if pre, _ := hx.KV(ws, "pre"); pre == "A" || pre == "a" {
 			c.addModule(pre == "A")
+		}
+		if rs := c.mods[i].rs; via == "apptimer" && rs != nil {
+			// the completion is delivered by the application's own run service timer (what BaseModule does)
+			ch := make(chan interface{}, 1)
+			rs.GetTimerMgr().After(time.Millisecond, func(args ...interface{}) {
+				defer func() { ch <- recover() }()
+				c.logf("%s%d%s", callTok[ph], i, bs)
+				nx(bs == "T")
+			})
+			r := ""
+			select {
+			case e := <-ch:
+				if e != nil {
+					r = "panic"
+				}
+			case <-time.After(3 * time.Second):
+				r = "undelivered" // the run service never ran the timer: this module can never complete
+			}
+			return c.segment(r)
 		}
 		c.logf("%s%d%s", callTok[ph], i, bs)
 		var r string
@@ -582,6 +646,63 @@ func (g *gen) svcOpt(app, k int) string {
 	g.h.Count("node.services." + p)
 	g.h.Count("node.launchmode." + mode)
 	return " svc=" + p + " mode=" + mode
+}
+
+// realShipped runs the real ClusterModule / WelcomeModule (the shipped modules that can be executed without
+// etcd or sockets) at every position of a 3-module node: clustering off (self cluster, success), clustering
+// on with an own address that has no port (StartMember fails early, in Provider.init: failure), and demands
+// what the translated bodies promise: completion exactly once.  The script of that position is the expected outcome.
+func (g *gen) realShipped() {
+	type rc struct{ name, cluster, start string }
+	for _, r := range []rc{{"cluster", "off", "T"}, {"cluster", "badaddr", "F"}, {"welcome", "off", "T"}} {
+		for pos := 0; pos < 3; pos++ {
+			scr := func(i int) string {
+				if i == pos {
+					return r.start
+				}
+				return "T"
+			}
+			g.run(fmt.Sprintf("reset n=3 app=2 kind=shipped start=%s stop=T,T,T real=%d:%s cluster=%s name=real-%s", join(3, scr), pos, r.name, r.cluster, r.name))
+			g.run("begin ph=S")
+			g.run("begin ph=X")
+			g.h.Count("shipped.real-module-executed")
+		}
+	}
+}
+
+// owntimer: the delayed completion is delivered by the application's own run service timer
+// (RunService.GetTimerMgr().After, what BaseModule-style modules do), in both phases.
+func (g *gen) owntimer() {
+	cases := 0
+	for app := 1; app <= 2; app++ {
+		for n := 1; n <= 3; n++ {
+			for p := 0; p < n; p++ {
+				for ph := 0; ph < 2; ph++ {
+					scr := func(i int) string {
+						if i == p {
+							return ""
+						}
+						return "T"
+					}
+					st, sp := join(n, scr), join(n, allT)
+					if ph == 1 {
+						st, sp = sp, st
+					}
+					g.run(fmt.Sprintf("reset n=%d app=%d kind=gen start=%s stop=%s%s", n, app, st, sp, g.svcOpt(app, cases)))
+					g.run("begin ph=S")
+					if ph == 0 {
+						g.run(fmt.Sprintf("fire ph=S i=%d b=T via=apptimer", p))
+					}
+					g.run("begin ph=X")
+					if ph == 1 {
+						g.run(fmt.Sprintf("fire ph=X i=%d b=T via=apptimer", p))
+					}
+					cases++
+				}
+			}
+		}
+	}
+	g.h.Stats["owntimer.cases(app,n,pos,phase)"] = cases
 }
 
 // inside: a module itself issues Stop / Start from inside its Start or Stop (directly, or by handing
@@ -868,7 +989,12 @@ func (g *gen) randomCase() {
 				pre = " pre=" + []string{"A", "a"}[h.R.Intn(2)]
 				h.Count("op.fire.with-addmodule")
 			}
-			g.run(fmt.Sprintf("fire ph=%s i=%d b=%s via=%s%s", phName[ph], out[0], b, vias[h.R.Intn(3)], pre))
+			via := vias[h.R.Intn(3)]
+			if !neg && app > 0 && h.R.Intn(40) == 0 {
+				via = "apptimer"
+				h.Count("op.fire.own-run-service-timer")
+			}
+			g.run(fmt.Sprintf("fire ph=%s i=%d b=%s via=%s%s", phName[ph], out[0], b, via, pre))
 			h.Count("op.fire.outstanding")
 		default:
 			// negative stream: any module, any phase, again and again, also ones that were never entered
@@ -958,6 +1084,8 @@ func TestRun(t *testing.T) {
 	g.reentrant(4)
 	g.inside()
 	g.growing(4)
+	g.realShipped()
+	g.owntimer()
 	n := hx.EnvInt("VERIF_N", 1500)
 	for i := 0; i < n; i++ {
 		g.randomCase()
